@@ -18,7 +18,7 @@ matrix is written down from the published definition:
     L_tip(x) = [x compatible with the observed symbol];   lnL = sum over sites log L(site)
 
 A parameter name is read as a substitution class: "A/C" undirected, "A>C" directed, "a | b" union, and the
-classic aliases kappa / kappa_y / kappa_r / omega.
+classic aliases kappa / kappa_y / kappa_r / omega / CpG (a CG dinucleotide is created or destroyed).
 """
 from __future__ import annotations
 
@@ -178,30 +178,42 @@ def _is_transition(x, y):
     return x != y and ((x in PURINES and y in PURINES) or (x in PYRIMIDINES and y in PYRIMIDINES))
 
 
+def _on_changed_letter(pred):
+    return lambda x, y, p: pred(x[p], y[p])
+
+
+def _cpg(x, y, p):
+    """the change creates or destroys a CG dinucleotide inside the word"""
+    return any((x[o:o + 2] == "CG" or y[o:o + 2] == "CG") and p in (o, o + 1) for o in range(len(x) - 1))
+
+
 def rate_class(name):
-    """parameter name -> predicate on a directed nucleotide change (x, y), or the string 'omega'"""
+    """parameter name -> predicate (from word x, to word y, changed position p), or the string 'omega'"""
     nm = name.strip()
     if nm == "omega":
         return "omega"
+    if nm == "CpG":
+        return _cpg
     if nm == "kappa":
-        return _is_transition
+        return _on_changed_letter(_is_transition)
     if nm == "kappa_y":
-        return lambda x, y: {x, y} == {"C", "T"}
+        return _on_changed_letter(lambda a, b: {a, b} == {"C", "T"})
     if nm == "kappa_r":
-        return lambda x, y: {x, y} == {"A", "G"}
+        return _on_changed_letter(lambda a, b: {a, b} == {"A", "G"})
     if nm.startswith("(") and nm.endswith(")"):
         nm = nm[1:-1]
     if "|" in nm:
-        parts = [rate_class(p) for p in nm.split("|")]
-        return lambda x, y: any(p(x, y) for p in parts)
+        parts = [rate_class(q) for q in nm.split("|")]
+        return lambda x, y, p: any(q(x, y, p) for q in parts)
     if ">" in nm:
-        f, t = [p.strip() for p in nm.split(">")]
+        f, t = [q.strip() for q in nm.split(">")]
         assert len(f) == 1 and len(t) == 1, name
-        return lambda x, y: x in DNA_SETS[f] and y in DNA_SETS[t]
+        return _on_changed_letter(lambda a, b: a in DNA_SETS[f] and b in DNA_SETS[t])
     if "/" in nm:
-        f, t = [p.strip() for p in nm.split("/")]
+        f, t = [q.strip() for q in nm.split("/")]
         assert len(f) == 1 and len(t) == 1, name
-        return lambda x, y: (x in DNA_SETS[f] and y in DNA_SETS[t]) or (y in DNA_SETS[f] and x in DNA_SETS[t])
+        return _on_changed_letter(lambda a, b: (a in DNA_SETS[f] and b in DNA_SETS[t])
+                                  or (b in DNA_SETS[f] and a in DNA_SETS[t]))
     raise ValueError(f"cannot read rate parameter name {name!r}")
 
 
@@ -240,7 +252,7 @@ def rate_matrix(family, weighting, pi, params, exchange=None):
                 if cls == "omega":
                     if GENETIC_CODE[x] != GENETIC_CODE[y]:
                         r *= val
-                elif family != "protein" and cls(x[p], y[p]):
+                elif family != "protein" and cls(x, y, p):
                     r *= val
             if weighting is None:
                 w = 1.0
